@@ -260,6 +260,10 @@ func c04(args []string) int {
 		// run-time reset while the replica lags behind local syncs and checkpoints
 		{Name: "seeded/store/reset-lagging-replica", Cfg: base, Alphabet: strings.Fields("RSET W1 U S SW LC:TRUNCATE LC:PASSIVE CK:TRUNCATE"), Depth: d(3, 5),
 			Seeds: seeds("W3 SW U S", "W3 SW U S LC:TRUNCATE", "W3 SW W1 S LC:PASSIVE")},
+		// litestream dies (or is closed) while at rest right after its OWN checkpoint: the newest local file is the
+		// one-frame bookkeeping file at the start of a restarted WAL; the application then restarts the WAL again
+		{Name: "seeded/nostore/down-after-own-checkpoint", Cfg: nostore, Alphabet: strings.Fields("W1 U CK:PASSIVE CK:TRUNCATE NEW SW"), Depth: d(4, 5),
+			Seeds: seeds("W3 SW LC:PASSIVE SW KILL", "W3 SW LC:TRUNCATE SW KILL", "W3 SW LC:PASSIVE SW CL"), Filter: g},
 		{Name: "exact/store/lifecycle+reset", Cfg: base, Alphabet: alphaD, Depth: d(4, 6), Seeds: seeds("W3 SW", "W3 SW W1"), Filter: g},
 		{Name: "exact/nostore/lifecycle+meta", Cfg: nostore, Alphabet: alphaD2, Depth: d(4, 6), Seeds: seeds("W3 SW", "W3 W3 SW LC:TRUNCATE W1 SW"), Filter: g},
 		{Name: "exact/store/swapdb", Cfg: base, Alphabet: alphaSwap, Depth: d(5, 7), Seeds: seeds("W3 SW"), Filter: g},
